@@ -242,6 +242,55 @@ theorem setSliceExt_size_mismatch_noop (st : TState) (s : Nat) (i j : Option Int
 example : step navExampleBase (.setSliceExt 4 none none 2 [3]) = (navExampleBase, .valueError) :=
   setSliceExt_size_mismatch_noop _ _ _ _ _ _ (by decide) (by decide) (by decide)
 
+/-! ### The form in which an iterable argument is handed over does not matter -/
+
+/-- a one-shot iterable yields its items once, a re-iterable one every time -/
+theorem Src.iterate_again (a : Src) :
+    a.iterate.2.iterate.1 = (if a.oneShot then [] else a.items) := by
+  cases h : a.oneShot <;> simp [Src.iterate, h]
+
+/-- `extend`, `+=`, slice / extended-slice assignment and construction iterate their argument exactly once and then
+behave as if they had been given the list of its items - whether the argument is re-iterable or one-shot -/
+theorem stepSrc_form_independent (st : TState) (op : Op) (a : Src) (hs : a.spent = false) :
+    (stepSrc st op a).1 = step st (op.withArg a.items) ∧ (stepSrc st op a).2.spent = true := by
+  simp [stepSrc, Src.iterate, hs]
+
+/-- hence the invariant is preserved for every form of argument -/
+theorem inv_stepSrc (st : TState) (op : Op) (a : Src) (h : Inv st) (hs : a.spent = false)
+    (hv : Valid st (op.withArg a.items)) : Inv (stepSrc st op a).1.1 := by
+  rw [(stepSrc_form_independent st op a hs).1]
+  exact inv_step st _ h hv
+
+/-- `extend` without the materialising `units = list(units)` is the same for every re-iterable argument … -/
+theorem extendLazy_reiterable (st : TState) (s : Nat) (a : Src) (h : a.oneShot = false) :
+    (extendLazy st s a).1 = (step st (.extend s a.items)).1 := by
+  simp [extendLazy, Src.iterate, h, step, extend]
+
+/-- … but not for a one-shot one: the handed-over units name the sequence as parent and are not listed
+(`s = PassSequence([]); s.subunits.extend(u for u in [x])`).  This is why the line is there, and why the harness hands
+arguments over as generators / iterators as well. -/
+theorem extendLazy_oneShot_breaks :
+    ∃ (st : TState) (s : Nat) (a : Src), Inv st ∧ Valid st (.extend s a.items) ∧ a.spent = false ∧
+      Inv (step st (.extend s a.items)).1 ∧ ¬ Inv (extendLazy st s a).1 := by
+  refine ⟨run init [.newUnit 0 0, .construct [] 0], 1, Src.fresh [0] true, ?_, ?_, rfl, ?_, ?_⟩
+  · exact inv_reachable _ (by simp [ValidRun, Valid, Op.target, Op.inserted])
+  · simp [Valid, Op.target, Op.inserted, Op.replaced, Src.fresh, run, step, construct, alloc, setParents,
+      setChildren, init]
+  · refine inv_step _ _ (inv_reachable _ (by simp [ValidRun, Valid, Op.target, Op.inserted])) ?_
+    simp [Valid, Op.target, Op.inserted, Op.replaced, Src.fresh, run, step, construct, alloc, setParents,
+      setChildren, init]
+  · intro h
+    have := (h.mem_iff 1 0).2
+    simp [extendLazy, Src.iterate, Src.fresh, run, step, construct, alloc, setParents, setChildren, init] at this
+
+/-- non-vacuity: `l[::-1] = (generator over [c, b, a])` on `l = [a, b, c]` is a valid step for a one-shot argument -/
+example : Valid navExampleBase ((Op.setSliceExt 4 none none (-1) []).withArg (Src.fresh [0, 1, 2] true).items) ∧
+    (stepSrc navExampleBase (.setSliceExt 4 none none (-1) []) (Src.fresh [0, 1, 2] true)).1.1.children 4
+      = [2, 1, 0] := by
+  simp [navExampleBase, Valid, Op.withArg, Op.target, Op.inserted, Op.replaced, Src.fresh, stepSrc, Src.iterate,
+    run, step, construct, alloc, setParents, setChildren, setSliceExt, slicePositions, extBounds, extPos, itemsAt,
+    replaceAt, List.idxOf_cons, init]
+
 /-! ### Non-vacuity: a concrete non-trivial history satisfies the hypotheses -/
 
 def exampleOps : List Op :=
